@@ -80,6 +80,8 @@ pub struct CallRec {
     pub units8: Vec<u8>,
     pub units16: Vec<u16>,
     pub had_errors: Option<bool>,
+    /// latin1_byte_compatible_up_to(src) asked just before the call
+    pub lc: Option<Option<usize>>,
     /// bytes of the guard bands / tail beyond `written` that were modified (C06/C18 oracles)
     pub guard_broken: bool,
 }
@@ -107,8 +109,16 @@ pub fn one_call(
         units8: Vec::new(),
         units16: Vec::new(),
         had_errors: None,
+        lc: None,
         guard_broken: false,
     };
+    {
+        let dref = std::panic::AssertUnwindSafe(&*d);
+        let srcv = src.to_vec();
+        if let Ok(v) = catch(move || dref.latin1_byte_compatible_up_to(&srcv)) {
+            rec.lc = Some(v);
+        }
+    }
     // source copied to an exact-size heap allocation at the requested alignment offset
     let mut src_store = vec![0u8; src.len() + 16];
     let so = align % 16;
@@ -322,6 +332,12 @@ pub fn show_calls(calls: &[CallRec], sink16: bool) -> String {
             if let Some(he) = c.had_errors {
                 s.push_str(&format!(",he={}", if he { 1 } else { 0 }));
             }
+            if let Some(lc) = c.lc {
+                match lc {
+                    Some(n) => s.push_str(&format!(",lc={}", n)),
+                    None => s.push_str(",lc=-"),
+                }
+            }
             s
         })
         .collect::<Vec<_>>()
@@ -464,6 +480,46 @@ pub fn oracles(out: &mut Out, p: &Plan, o: &Outcome, props: &[&str]) {
         consumed += c.read;
     }
     let _ = consumed;
+    // C19: latin1_byte_compatible_up_to is exact (checked against fresh decoders: it
+    // answers Some only in a neutral state, where a fresh decoder behaves identically)
+    if want("C19") {
+        let mut pos = 0usize;
+        let mut cur_enc = p.enc;
+        for (i, c) in o.calls.iter().enumerate() {
+            let src = &p.stream[pos.min(p.stream.len())..(pos + c.n).min(p.stream.len())];
+            if let Some(Some(n)) = c.lc {
+                if n > src.len() {
+                    out.fail("C19", &lhs, format!("call#{} latin1_byte_compatible_up_to = {} > buffer length {}", i, n, src.len()));
+                } else {
+                    // which encoding is the decoder using now? (after a BOM switch the harness cannot
+                    // see it before the end; use the final encoding once any byte was consumed)
+                    if pos > 0 {
+                        cur_enc = o.final_enc;
+                    }
+                    let mut fresh = cur_enc.new_decoder_without_bom_handling();
+                    let mut dst = vec![0u16; n + 4];
+                    let (r, rd, wr) = fresh.decode_to_utf16_without_replacement(&src[..n], &mut dst, false);
+                    let same = r == DecoderResult::InputEmpty && rd == n && wr == n && (0..n).all(|j| dst[j] == u16::from(src[j]));
+                    if !same && p.bom == Bom::Off {
+                        out.fail("C19", &lhs, format!("call#{} latin1_byte_compatible_up_to = {} but the first {} bytes do not decode to their own values", i, n, n));
+                    }
+                    if n < src.len() && p.bom == Bom::Off {
+                        let b = src[n];
+                        let mut f2 = cur_enc.new_decoder_without_bom_handling();
+                        let mut d2 = [0u16; 4];
+                        let (r2, _, w2) = f2.decode_to_utf16_without_replacement(&src[n..n + 1], &mut d2, false);
+                        let identity = r2 == DecoderResult::InputEmpty && w2 == 1 && d2[0] == u16::from(b);
+                        if b < 0x80 && identity {
+                            out.fail("C19", &lhs, format!("call#{} latin1_byte_compatible_up_to = {} stops short inside a run of ASCII (byte 0x{:02X} at {} decodes to itself)", i, n, b, n));
+                        } else if cur_enc.is_single_byte() && identity {
+                            out.fail("C19", &lhs, format!("call#{} latin1_byte_compatible_up_to = {} but byte 0x{:02X} at {} decodes to itself", i, n, b, n));
+                        }
+                    }
+                }
+            }
+            pos += c.read;
+        }
+    }
     if all_min {
         if let Some(a) = &o.aborted {
             if a == "call-limit" && want("C08") {
@@ -799,6 +855,7 @@ fn props_for(prop: &str) -> Option<Vec<&'static str>> {
         "C09" => Some(vec!["C09"]),
         "C10" => Some(vec!["C10"]),
         "C18" => Some(vec!["C18"]),
+        "C19" => Some(vec!["C19"]),
         _ => None,
     }
 }
@@ -904,7 +961,7 @@ pub fn plan_from_dec(toks: &[&str]) -> Option<Plan> {
 }
 
 pub fn replay(toks: &[&str], out: &mut Out) -> bool {
-    let all = ["C01", "C02", "C05", "C06", "C08", "C09", "C10", "C18"];
+    let all = ["C01", "C02", "C05", "C06", "C08", "C09", "C10", "C18", "C19"];
     match toks[0] {
         "decplan" => {
             if let Some(p) = parse_plan(toks) {
